@@ -96,6 +96,32 @@ def seeded() -> str:
     return '\n'.join(rows) + '\n'
 
 
+def harmless() -> str:
+    rows = ['| id | property | kind | what was rewritten | result of `./check` (quick tier; wanted: exit 0) |', '|---|---|---|---|---|']
+    n = alarms = 0
+    for d in sorted(glob.glob(f'{ROOT}/harmless/*/')):
+        sid = os.path.basename(d.rstrip('/'))
+        if not os.path.exists(d + 'meta.json'):
+            continue
+        meta = json.load(open(d + 'meta.json'))
+        res = json.load(open(d + 'result.json')) if os.path.exists(d + 'result.json') else {}
+        pids = meta['property'] if isinstance(meta['property'], list) else [meta['property']]
+        cells = []
+        for p, v in res.get('checks', {}).items():
+            n += 1
+            if v.get('exit') == 0:
+                cells.append('exit 0, no alarm')
+            else:
+                alarms += 1
+                kinds = 'no-failing-input-found only' if not v.get('with_input') else 'VIOLATION WITH INPUT (to be investigated)'
+                cells.append(f'alarm: {kinds}')
+        clip = lambda s, k: (lambda t: t if len(t) <= k else t[:k - 1] + '…')(' '.join(str(s).split()).replace('|', '\\|'))
+        rows.append(f'| {sid} | {",".join(pids)} | {clip(meta.get("kind", ""), 40)} | {clip(meta.get("title", meta.get("what", "")), 220)} | {" / ".join(cells) or "not run"} |')
+    rows.append('')
+    rows.append(f'{n - alarms} of {n} refactorings pass silently; {alarms} raise an alarm of the no-failing-input-found kind.')
+    return '\n'.join(rows) + '\n'
+
+
 def axioms() -> str:
     rows = ['| property | axioms reported by `Print Assumptions` over all theorems of `Props/CNN.v` (from `evidence/CNN.json`) | obligations discharged | tier of that run |', '|---|---|---|---|']
     for f in sorted(glob.glob(f'{ROOT}/evidence/C*.json')):
@@ -109,7 +135,7 @@ def axioms() -> str:
 def main() -> None:
     p = f'{ROOT}/DESIGN.md'
     s = open(p).read()
-    for name, fn in (('11.2', per_property), ('11.4', seeded), ('11.5', axioms)):
+    for name, fn in (('11.2', per_property), ('11.4', seeded), ('11.5', axioms), ('11.6', harmless)):
         b, e = f'<!-- BEGIN GENERATED {name} -->', f'<!-- END GENERATED {name} -->'
         assert b in s and e in s, name
         s = s[:s.index(b) + len(b)] + '\n' + fn() + '\n' + s[s.index(e):]
